@@ -45,7 +45,7 @@ def chunks(tier, seed):
 
 
 def floors(tier):
-    return {"monitors": {"readUnixTime.wellformed": 100000},
+    return {"monitors": {"readUnixTime.wellformed": 100000, "inplace_fields.then_convert": 3000},
             "classes": {"jan1_after_common_year": 90, "dec31_leap_year": 30, "leap_day": 30,
                         "cmp_pair": 1000, "add_cross_year": 50, "add_cross_leapday": 20},
             "distinct_nontrivial": 1000}
@@ -283,6 +283,26 @@ def run_case(case, ctx):
         if abs(back - tgt) > 1:
             return violated({"what": "add%s did not move the instant by n" % unit, "base": bf, "n": n,
                              "got_fields": rf, "expected_fields": tf, "delta_ms": back - tgt}, sig, True, cls)
+        # object history: a timestamp that was already converted and compared has its public calendar fields set in
+        # place (as tracklib's own reader does after constructing an empty ObsTime); conversions and comparisons
+        # must then speak of the fields it has NOW
+        u = gen.obstime_from_ms(base)
+        first = M.call(t.toAbsTime)
+        M.call(OPS["<"], t, u)
+        M.call(OPS["=="], t, u)
+        t.year, t.month, t.day, t.hour, t.min, t.sec, t.ms = [int(v) for v in tf]
+        second = M.call(t.toAbsTime)
+        ctx.monitor("inplace_fields.then_convert")
+        if M.is_raised(first) or M.is_raised(second) or abs(second * 1000.0 - tgt) > 1e-3:
+            return violated({"what": "toAbsTime after the calendar fields were set in place does not denote the new "
+                                     "fields", "fields_before": bf, "fields_now": tf, "first_conversion": first,
+                             "second_conversion": second, "expected_s": tgt / 1000.0}, sig, True, cls)
+        for name, op in OPS.items():
+            got = M.call(op, t, u)
+            if M.is_raised(got) or bool(got) != op(tgt, base):
+                return violated({"what": "comparison %s after the calendar fields were set in place disagrees with "
+                                         "epoch order" % name, "a_fields_now": tf, "a_fields_before": bf, "b": bf,
+                                 "got": got, "expected": op(tgt, base)}, sig, True, cls)
         return held(sig, len(cls) > 1, cls)
     raise M.HarnessError("unknown case kind %r" % kind)
 
